@@ -48,6 +48,16 @@ class Recorder:
             self.act(self.plan[1], self.plan[2])
 
 
+class Relay:
+    """a helper created on the spot for one binding (`sender.bind(Relay(target).deliver)`): nobody but the binding keeps it"""
+
+    def __init__(self, target):
+        self.target = target
+
+    def deliver(self, event):
+        self.target(event)
+
+
 def run(ch, tier):
     res = Result()
     cs = ch.s('cfg')
@@ -224,6 +234,9 @@ def run(ch, tier):
                 continue
             key = ops.pick(cands)
             target = sims[int(key[1:])].it if key.startswith('i') else calls[int(key[1:])]
+            if key.startswith('c') and ops.flag(1, 3):
+                target = Relay(target).deliver       # a bound method of an object only the binding refers to
+                res.stats['bound_method_of_an_otherwise_unreferenced_object'] += 1
             listener = sims[i].it.bind(target)
             bound[i].append((key, listener))
             hist.append(('bind', 'i%d' % i, key))
